@@ -138,7 +138,13 @@ SubUnitPair(nd) == SubUnitStep(nd) /\ IsStep(Nd(nd.parent)) /\ SubUnitStep(Nd(nd
 SubUnitOf(kind) == Cardinality({i \in 1..NLog : SubUnitPair(Nd(i)) /\ Nd(i).args.kind = kind /\ EpochOk(i)})
 EpochLong == Cardinality({i \in 1..NLog : EpochOk(i) /\ EpK(i) >= 2})
 ViaCount(v) == Cardinality({i \in 1..NLog : StepOk(Nd(i)) /\ Nd(i).args.via = v})
-Stats == PrintT(<<"STATS", [nodes |-> NLog, epochs2 |-> EpochLong, subUnitVault |-> SubUnitOf("vault"), subUnitLocker |-> SubUnitOf("locker"),
+(* a trigger at the creation time of a position (dt = 0 since it exists) whose product / pool / owner state is older *)
+BornTrigger(nd, v) == StepOk(nd) /\ ElapsedOk(nd) /\ Nd(nd.parent).a = "Open" /\ nd.args.dt = 0 /\ nd.args.variant = v /\ Nd(nd.parent).args.age > 0
+Born(v) == Cardinality({i \in 1..NLog : BornTrigger(Nd(i), v)})
+BornVia(v, denom) == Cardinality({i \in 1..NLog : BornTrigger(Nd(i), v) /\ Nd(Nd(i).parent).args.bridged = denom})
+Stats == PrintT(<<"STATS", [nodes |-> NLog, bornVault |-> Born("vault"), bornLocker |-> Born("locker"), bornLend |-> Born("lend"),
+                           bornBorrowSame |-> Born("same"), bornBorrowAlt |-> Born("alt"),
+                           bornBorrowTransit1 |-> BornVia("x1", "ulendb"), bornBorrowTransit2 |-> BornVia("x2", "ulendc"), epochs2 |-> EpochLong, subUnitVault |-> SubUnitOf("vault"), subUnitLocker |-> SubUnitOf("locker"),
                            subUnitLend |-> SubUnitOf("lend"), subUnitBorrow |-> SubUnitOf("borrow"),
                            elapsedChecked |-> Count(ElapsedOk), viaRateUpdate |-> ViaCount("rate-update"), viaDeposit |-> ViaCount("deposit"), mono |-> Count(MonoChecked), monoStrict |-> Count(MonoStrict), splits |-> Count(SplitChecked),
                            splitsFloat |-> Count(SplitFloat), zeroTime |-> Count(ZeroTime), fnErrors |-> Count(Failed),
